@@ -44,11 +44,18 @@ def expression_programs(rng):
     for sub in (A.NullTerminated(A.GreedyBytes), A.Prefixed(A.Alias("Byte"), A.GreedyBytes), A.Padded(5, A.GreedyBytes), A.Aligned(4, A.GreedyBytes),
                 A.NullTerminated(A.GreedyBytes, term=b"\xff", include=False), A.FixedSized(6, A.NullStripped(A.GreedyBytes))):
         out.append(A.Struct(A.Renamed("sig", A.Const(rng.choice([b"abc", b"MZ", b"\x7fELF"]), sub)), A.Renamed("t", A.Tell), A.Renamed("x", A.Alias("Byte"))))
+    for leaf in (A.Bytes(2), A.Bytes(A.T("_params", "k")) if False else A.Bytes(3), A.GreedyBytes, A.Array(2, A.Alias("Byte")), A.PaddedString(4, "utf8"), A.CString("utf8")):
+        out.append(probe_wrap_len(leaf))
     out.append(A.Struct(A.Renamed("sig", A.Const("ab", A.PaddedString(6, "utf8"))), A.Renamed("v", A.Const(300, A.VarInt)), A.Renamed("t", A.Tell)))
     return out
 
 def probe_wrap(prog):
     return A.Struct(A.Renamed("n0", A.Alias("Byte")), A.Renamed("x", prog), A.Renamed("t", A.Tell), A.Renamed("c", A.Computed(A.T("n0"))), A.Renamed("z", A.Bytes(A.T("n0"))))
+
+LEN_KINDS = {"Bytes", "GreedyBytes", "Array", "GreedyRange", "PaddedString", "CString", "GreedyString", "PascalString", "PrefixedArray", "Sequence"}
+def probe_wrap_len(prog):
+    "a later member whose length depends on the *type* of what the earlier member left in the context (len_ of bytes / str / list)"
+    return A.Struct(A.Renamed("x", prog), A.Renamed("l", A.Array(A.Bin("*", A.Func("len", A.T("x")), A.C(0)), A.Alias("Byte"))), A.Renamed("t", A.Tell))
 
 def run(ctx):
     rng = ctx.rng
@@ -60,7 +67,8 @@ def run(ctx):
     for i in range(250 if quick else 5000):
         kw = rng.choice([{}, {"k": 2}, {"k": 1, "w": 3}])
         p = gen.program(rng, rng.choice([1, 2, 2, 3]), kw)
-        progs.append((probe_wrap(p) if rng.random() < 0.5 else p, kw))
+        r = rng.random()
+        progs.append((probe_wrap(p) if r < 0.45 else probe_wrap_len(p) if r < 0.7 and p["k"] in LEN_KINDS else p, kw))
     nt = 0
     failed_compile = 0
     linked = 0
@@ -82,9 +90,12 @@ def run(ctx):
                 linked += 1
             oprog = {"k": "Opaque", "desc": "compiled"}
             inputs = [gen.random_input(rng, 8) for _ in range(3)]
-            for _ in range(4):
+            explicit = []
+            if prog["k"] == "Struct" and len(prog["subs"]) == 3 and prog["subs"][1].get("name") == "l" and prog["subs"][0]["sub"]["k"] == "Bytes":
+                explicit = [{"x": 258, "l": []}, {"x": 0, "l": []}]         # Bytes built from an integer leaves bytes in the context
+            for _ in range(4 + len(explicit)):
                 try:
-                    v = gen.build_value(rng, prog, kw)
+                    v = explicit.pop() if explicit else gen.build_value(rng, prog, kw)
                 except Exception:
                     continue
                 pre = rng.choice([b"", b"\xee"])
